@@ -9,6 +9,10 @@ extern "C" {
 void ec_init_tables_gfni(int k, int rows, unsigned char *a, unsigned char *g_tbls);
 int gf_vect_mul_sse(int, unsigned char *, void *, void *);
 int gf_vect_mul_avx(int, unsigned char *, void *, void *);
+void gf_vect_mad_sse(int, int, int, unsigned char *, unsigned char *, unsigned char *);
+void gf_vect_mad_avx(int, int, int, unsigned char *, unsigned char *, unsigned char *);
+void gf_vect_mad_avx2(int, int, int, unsigned char *, unsigned char *, unsigned char *);
+void gf_vect_mad_avx512(int, int, int, unsigned char *, unsigned char *, unsigned char *);
 }
 using namespace pbt;
 
@@ -85,6 +89,23 @@ static void body_tbl(Tape &t, Ctx &c) {
 			PBT_CHECK(!f.faulted && rc == 0, "gf_table_product", "%s(c=%u): %s rc=%d", v.n, cst, f.describe().c_str(), rc);
 			for (int i = 0; i < N; i++)
 				PBT_CHECK(dst.p[i] == refgf::mul_slow(cst, src.p[i]), "gf_table_product", "%s: c=%u times %u (neighbours %u,%u) gives %u, the field product is %u", v.n, cst, src.p[i], i ? src.p[i - 1] : 0, i + 1 < N ? src.p[i + 1] : 0, dst.p[i], refgf::mul_slow(cst, src.p[i]));
+		}
+	}
+	// ... and the multiply-accumulate consumers of the same 32-byte table (single source, zeroed accumulator: dest must become c * src),
+	// with a length that exercises the overlapped tail of the vector kernels
+	{
+		const int N = 1024 - 1 - (int) (cst % 61);
+		guard::Buf src = guard::alloc(N, guard::END, "src"), dst = guard::alloc(N, guard::END, "dst");
+		for (int i = 0; i < N; i++) src.p[i] = (uint8_t) (i < 256 ? i : mix64(i * 131 + cst) >> 17);
+		guard::set_readonly(src);
+		typedef void (*madfn)(int, int, int, unsigned char *, unsigned char *, unsigned char *);
+		static const struct { const char *n; madfn f; } MV[] = {{"gf_vect_mad_base", gf_vect_mad_base}, {"gf_vect_mad_sse", gf_vect_mad_sse}, {"gf_vect_mad_avx", gf_vect_mad_avx}, {"gf_vect_mad_avx2", gf_vect_mad_avx2}, {"gf_vect_mad_avx512", gf_vect_mad_avx512}, {"gf_vect_mad", gf_vect_mad}};
+		for (auto &v : MV) {
+			memset(dst.p, 0, N);
+			f = guard::call([&] { v.f(N, 1, 0, tb.p, src.p, dst.p); });
+			PBT_CHECK(!f.faulted, "gf_table_product", "%s(len %d, c=%u): %s", v.n, N, cst, f.describe().c_str());
+			for (int i = 0; i < N; i++)
+				PBT_CHECK(dst.p[i] == refgf::mul_slow(cst, src.p[i]), "gf_table_product", "%s (len %d): c=%u times %u at offset %d gives %u, the field product is %u", v.n, N, cst, src.p[i], i, dst.p[i], refgf::mul_slow(cst, src.p[i]));
 		}
 	}
 	// GFNI 8-byte form
